@@ -55,12 +55,14 @@ def _keys_of(schema, frags, s, seen=()):
 
 
 def c01_sigs(schema, doc, op=None):
-    """Map predicate name -> set of response paths of the selection sets where it holds."""
+    """Map predicate name -> set of response paths (selection-set path + "/" + response key) of exactly
+    the keys the finding explains. A deserialisation error has no position, so for those every
+    predicate that holds anywhere in the operation counts (see sigs_at)."""
     sigs = {}
     frags = doc.frags
 
-    def flag(name, path):
-        sigs.setdefault(name, set()).add(path)
+    def flag(name, path, keys):
+        sigs.setdefault(name, set()).update((path + "/" + k) if k else path for k in keys)
 
     for parent, sel, path in selection_sets(schema, doc, op):
         kind = schema.kind(parent)
@@ -73,27 +75,27 @@ def c01_sigs(schema, doc, op=None):
                 flat.append(_keys_of(schema, frags, s) - {"__typename"})
         for i, ks in enumerate(flat):
             if ks & direct:
-                flag("sibling_flattened_selections_share_response_key", path)
+                flag("sibling_flattened_selections_share_response_key", path, ks & direct)
             for ks2 in flat[i + 1:]:
                 if ks & ks2:
-                    flag("sibling_flattened_selections_share_response_key", path)
+                    flag("sibling_flattened_selections_share_response_key", path, ks & ks2)
         for s in sel:
             if isinstance(s, Spread) and s.name in frags:
                 if kind == "OBJECT" and frags[s.name].on != parent:
-                    flag("abstract_fragment_spread_on_object_parent", path)
+                    flag("abstract_fragment_spread_on_object_parent", path, _keys_of(schema, frags, s))
             if isinstance(s, Inline):
                 if kind == "OBJECT":
-                    flag("inline_fragment_on_object_parent", path)
+                    flag("inline_fragment_on_object_parent", path, _keys_of(schema, frags, s))
                 elif s.on == parent:
-                    flag("inline_fragment_on_same_abstract_type", path)
+                    flag("inline_fragment_on_same_abstract_type", path, _keys_of(schema, frags, s))
         ons = [s.on for s in sel if isinstance(s, Inline)]
         if len(ons) != len(set(ons)):
-            flag("two_inline_fragments_same_type", path)
+            flag("two_inline_fragments_same_type", path, {""})
         if kind == "OBJECT" and sel:
             rendered = [s for s in sel if (isinstance(s, Field) and s.name != "__typename") or
                         (isinstance(s, Spread) and s.name in frags and frags[s.name].on == parent)]
             if not rendered:
-                flag("object_selection_without_rendered_fields", path)
+                flag("object_selection_without_rendered_fields", path, {""})
     return sigs
 
 
@@ -120,3 +122,15 @@ def sigs_at(sigs, diff_paths=None):
         if ok:
             out.add(name)
     return out
+
+
+def sig_groups(sigs, diff_paths):
+    """One set of explaining predicates per differing path (a violation is a known finding only if
+    every one of its paths is explained by some listed finding)."""
+    groups = []
+    for dp in diff_paths or []:
+        d = strip_indices(dp)
+        if d.startswith("dup/"):
+            continue
+        groups.append({name for name, wheres in sigs.items() if any(d == w or d.startswith(w + "/") for w in wheres)})
+    return groups
